@@ -434,16 +434,21 @@ def normalize(got, want, runstate=None):
         want = re.sub(r'\s', '', want, flags=re.MULTILINE)
 
     if runstate['NORMALIZE_REPR']:
-        def norm_repr(a, b):
+        def norm_repr(a, b, a_is_want=False):
             # If removing quotes would allow for a match, remove them.
-            if not _check_match(a, b, runstate):
+            def _matches(a_):
+                # keep the roles of got and want, only the want has wildcards
+                if a_is_want:
+                    return _check_match(b, a_, runstate)
+                return _check_match(a_, b, runstate)
+            if not _matches(a):
                 for q in ['"', "'"]:
                     if len(a) >= 2 and a.startswith(q) and a.endswith(q):
-                        if _check_match(a[1:-1], b, runstate):
+                        if _matches(a[1:-1]):
                             return a[1:-1]
             return a
         got = norm_repr(got, want)
-        want = norm_repr(want, got)
+        want = norm_repr(want, got, a_is_want=True)
 
     return got, want
 
